@@ -34,10 +34,10 @@ pub fn cfg() -> GenCfg {
         keys: (2, 7),
         sub_depth: 1,
         w_kinds: [1, 1, 0, 0, 12, 1, 5],
-        p_null: 3,
-        p_absent: 3,
+        p_null: 8,
+        p_absent: 8,
         p_kind_varies: 5,
-        p_inherits: 0,
+        p_inherits: 35,
         max_pieces: 3,
         max_comp_depth: 2,
         ..GenCfg::default()
@@ -419,7 +419,7 @@ pub fn run(mut ctx: Ctx) -> ! {
          silent loss. non-trivial = project with a plural key / expected unused forms / >=2 plural-shaped keys; distinct = hash",
         &[
             "the run-time selection in generated code is observed by the generated-crate stage",
-            "no fallback between locales for plural keys in (1): which locale's rules apply to an inherited plural is not specified",
+            "a plural inherited from another locale is selected by the rules of the locale being rendered (what every accessor flavour does on the pinned tree)",
         ],
         20,
     )
